@@ -41,7 +41,7 @@ def run(ctx):
     global NVALS
     c01.CTX = ctx
     NVALS = 6 if ctx.tier == "quick" else 12
-    w = {"bind_config": 8, "write_config": 10, "delete_config": 10, "call_eqv": 10, "group:stdlib": 0, "group:storage": 1, "group:loop": 1, "group:core": 1,
+    w = {"bind_config": 30, "write_config": 40, "delete_config": 40, "call_eqv": 40, "group:stdlib": 0, "group:storage": 1, "group:loop": 1, "group:core": 1,
          "reorder_stmts": 4, "fission": 3, "inline": 3, "lift_scope": 2, "fuse": 2, "specialize": 2, "simplify": 2}
     names = sched.op_names(weights=w)
     strat = c01.case_strategy(4 if ctx.tier == "quick" else 8, names, max_stmts=10, config_pct=100, calls=True)
